@@ -233,6 +233,24 @@ func runC09(c *Ctx) {
 			}
 			c.Check(ok && len(pairs) == 3, "O2", "ABS", funcKey(cmpFn)+": higher over-quota priority first", cmpFn.Pos(), "negative exactly when i > j", "the over-quota priorities are not served from the highest to the lowest")
 		}
+		// the same order written without a comparator: ascending sort followed by a reversal of the same slice
+		for _, in := range instrsIn(gq, func(in ssa.Instruction) bool {
+			cc, ok := in.(ssa.CallInstruction)
+			return ok && calleeOf(cc) != nil && funcPkgPath(calleeOf(cc)) == "slices" && (calleeOf(cc).Name() == "Sort" || strings.HasPrefix(calleeOf(cc).Name(), "Sort["))
+		}) {
+			subject := in.(ssa.CallInstruction).Common().Args[0]
+			rev := false
+			for _, r := range instrsIn(gq, func(x ssa.Instruction) bool {
+				cc, ok := x.(ssa.CallInstruction)
+				return ok && calleeOf(cc) != nil && funcPkgPath(calleeOf(cc)) == "slices" && strings.HasPrefix(calleeOf(cc).Name(), "Reverse")
+			}) {
+				if r.(ssa.CallInstruction).Common().Args[0] == subject && dominatesInstr(in, r) {
+					rev = true
+				}
+			}
+			n++
+			c.Check(rev, "O2", "ABS", funcKey(gq)+": higher over-quota priority first", instrPos(in), "slices.Sort then slices.Reverse of the same slice", "the over-quota priorities are sorted ascending and not reversed: they are not served from the highest to the lowest")
+		}
 		c.Floor("O2", "ABS priority sorts", n, 1)
 	}
 	if rr := c.Anchor("O2", pkgResDiv, "", "remainingRequestedOrderFn"); rr != nil {
@@ -473,7 +491,8 @@ func runC09(c *Ctx) {
 	if dq := c.Anchor("O8", pkgResDiv, "", "divideOverQuotaResource"); dq != nil {
 		rem := p.Func(pkgResDiv, "", "divideRemainingResource")
 		n := 0
-		for _, in := range instrsIn(dq, isCallToFn(rem)) {
+		for _, dh := range p.deepFind(dq, isCallToFn(rem), 2) {
+			in := dh.In
 			n++
 			h := loopHeaderOf(in.Block())
 			if h == nil {
